@@ -1,11 +1,15 @@
 (* C10/Property.v — property theorems only.
    rmatch (the regex engine) and ectab (the entity-category tables) are universally quantified:
-   the theorems hold for every regex semantics and every table. *)
+   the theorems hold for every regex semantics and every table.
+   `guard` is no longer a finding guard: since the repairs a4e3dbdd (C10-F1) and 47cc754e (C10-F2)
+   it is only the stated input assumption wf (with entity categories in force the identity has no
+   attribute named ""). *)
 From Coq Require Import String List Bool.
 From Verif Require Import Base.Str C10.Model C10.Spec C10.Proofs.
+Import ListNotations.
 
 (* released names are the user's names; every released value list is a sub-multiset of what the
-   user holds (never more occurrences).  No hypothesis: also true inside the finding classes. *)
+   user holds (never more occurrences).  No hypothesis. *)
 Theorem c10_release_subset : forall rmatch ectab x r,
   o_out (run rmatch ectab x) = Ok r -> subset (i_ident x) r.
 Proof. exact release_subset. Qed.
@@ -14,7 +18,7 @@ Print Assumptions c10_release_subset.
 (* every released name and value passes the most specific applicable section's restriction, and
    the entity categories (when in force) or else the requester's declaration (when there is one) *)
 Theorem c10_release_allowed : forall rmatch ectab x r,
-  guard rmatch ectab x = true -> o_out (run rmatch ectab x) = Ok r -> allowed rmatch ectab (flat x) r.
+  guard ectab x = true -> o_out (run rmatch ectab x) = Ok r -> allowed rmatch ectab (flat x) r.
 Proof. exact release_allowed. Qed.
 Print Assumptions c10_release_allowed.
 
@@ -23,45 +27,56 @@ Theorem c10_caller_unchanged : forall rmatch ectab x, o_caller (run rmatch ectab
 Proof. exact caller_unchanged. Qed.
 Print Assumptions c10_caller_unchanged.
 
-(* filter_on_attributes / Policy.filter / Policy.restrict / Assertion.apply_policy: a required
-   attribute that cannot be supplied while failing is in effect is an error, never a release *)
+(* EVERY entry point - filter_on_attributes / Policy.filter / Policy.restrict /
+   Assertion.apply_policy / Server.create_authn_response: a required attribute that cannot be
+   supplied while failing is in effect (at the Server: best_effort false) is an error - at the
+   Server an error response -, never a release *)
 Theorem c10_missing_required_is_error : forall rmatch ectab x,
-  i_entry x <> EServer -> must_fail ectab (flat x) -> forall r, o_out (run rmatch ectab x) <> Ok r.
+  must_fail ectab (flat x) -> forall r, o_out (run rmatch ectab x) <> Ok r.
 Proof. exact missing_required_is_error. Qed.
 Print Assumptions c10_missing_required_is_error.
 
-(* the whole property at the Policy level (no best_effort there) *)
+(* the whole property at the Policy level *)
 Theorem c10_policy_level : forall rmatch ectab x,
-  i_entry x <> EServer -> class2 ectab x = false -> wf ectab x = true ->
+  (forall be, i_entry x <> EServer be) -> wf ectab x = true ->
   spec rmatch ectab (flat x) (run rmatch ectab x).
 Proof. exact policy_level_holds. Qed.
 Print Assumptions c10_policy_level.
 
-(* the whole property for every entry point outside the two finding classes *)
+(* the whole property for every entry point (Server included, best_effort or not) *)
 Theorem c10_guarded : forall rmatch ectab x,
-  guard rmatch ectab x = true -> spec rmatch ectab (flat x) (run rmatch ectab x).
+  guard ectab x = true -> spec rmatch ectab (flat x) (run rmatch ectab x).
 Proof. exact run_spec. Qed.
 Print Assumptions c10_guarded.
 
-(* finding 1 (open): Server._authn_response passes best_effort=True, a MissingValue leaves the
-   unfiltered identity in the assertion *)
-Theorem c10_server_release_refuted : exists rmatch ectab x, ~ spec rmatch ectab (flat x) (run rmatch ectab x).
-Proof. exact server_release_refuted. Qed.
-Print Assumptions c10_server_release_refuted.
+(* ... with no hypothesis at all when no entity categories are in force *)
+Theorem c10_whole_property_no_ec : forall rmatch ectab x,
+  the_entries ectab (flat x) = [] -> spec rmatch ectab (flat x) (run rmatch ectab x).
+Proof. exact no_ec_holds. Qed.
+Print Assumptions c10_whole_property_no_ec.
 
-(* ... while setup_assertion called with best_effort=False obeys the property *)
-Theorem c10_setup_assertion_strict : forall rmatch ectab x r,
-  class2 ectab x = false -> wf ectab x = true -> i_entry x = EServer ->
-  setup_assertion rmatch ectab false (i_ident x) (i_pol x) (i_sp x) (i_md x) = Ok r ->
-  released_ok rmatch ectab (flat x) r.
-Proof. exact setup_assertion_strict. Qed.
-Print Assumptions c10_setup_assertion_strict.
+(* what the Server releases is the outcome of a pass of the policy (the first, or with best_effort
+   the one with fail_on_missing=False) - never the unfiltered identity *)
+Theorem c10_server_release_is_policy_output : forall rmatch ectab x be r,
+  i_entry x = EServer be -> o_out (run rmatch ectab x) = Ok r ->
+  exists fo out, restrict rmatch ectab (i_ident x) (i_pol x) (i_sp x) (i_md x) fo = Ok out
+                 /\ (fo = None \/ (be = true /\ fo = Some false))
+                 /\ r = self_after (i_ident x) (Ok out).
+Proof. exact server_release_is_policy_output. Qed.
+Print Assumptions c10_server_release_is_policy_output.
 
-(* finding 2 (open): entity categories configured but no metadata store: the filter is skipped *)
-Theorem c10_nostore_refuted : exists rmatch ectab x,
-  i_entry x = ERestrict /\ ~ spec rmatch ectab (flat x) (run rmatch ectab x).
-Proof. exact nostore_refuted. Qed.
-Print Assumptions c10_nostore_refuted.
+(* finding C10-F1, fixed by a4e3dbdd: the code BEFORE the repair (run_v0: literal best_effort=True,
+   MissingValue leaves the unfiltered identity in the assertion) fails the property *)
+Theorem c10_server_release_v0_refuted : exists rmatch ectab x, ~ spec rmatch ectab (flat x) (run_v0 rmatch ectab x).
+Proof. exact server_release_v0_refuted. Qed.
+Print Assumptions c10_server_release_v0_refuted.
+
+(* finding C10-F2, fixed by 47cc754e: the code BEFORE the repair skipped the entity-category filter
+   when the Policy has no metadata store *)
+Theorem c10_nostore_v0_refuted : exists rmatch ectab x,
+  i_entry x = ERestrict None /\ ~ spec rmatch ectab (flat x) (run_v0 rmatch ectab x).
+Proof. exact nostore_v0_refuted. Qed.
+Print Assumptions c10_nostore_v0_refuted.
 
 (* the boolean spec that Coq evaluates on the implementation's recorded output is the stated spec *)
 Theorem c10_spec_reflect : forall rmatch ectab x o,
